@@ -19,7 +19,8 @@ BOUNDS = ("Cell grid: comment style {; ( [ < \" ' /* #} x entry point that accep
           "(0..0x10FFFF). Oracle: an independent lexer splits the output at CR/LF and removes "
           "comments under the configured style; the executable words per line and the number of "
           "lines must equal those of the same call with the text 'x'. Longer texts are outside the "
-          "claim (one line break or one delimiter already fits). Plus history cells: the same text "
+          "claim, except for texts of 4-5 characters over the alphabet {delimiter characters of the "
+          "style, 'x', space, LF} (nested / overlapping delimiters). Plus history cells: the same text "
           "before and after a run-time change of the comment style.")
 ASSUMPTIONS = [
     "bytes(line, 'utf-8') in GCodeCore.write is stubbed as an injective encoding (text kept as is)",
@@ -101,10 +102,14 @@ def _run(style, entry, text, ending):
     return rec.text(), err
 
 
-def _make(style, entry, length, ending):
+def _make(style, entry, length, ending, alphabet=None):
     ref_text = "k" if entry == "annotate-key" else "x"
 
     def h(t):
+        if alphabet is not None:
+            # deepening: longer texts over the characters that matter for this style
+            for ch in t:
+                assume(ch in alphabet)
         if entry == "annotate-key":
             # bound: ASCII keys only (str.isidentifier over all of Unicode does not exhaust)
             for ch in t:
@@ -210,6 +215,17 @@ def cells(tier):
                     out.append(Cell(name, _make(style, entry, length, ending),
                                     budget_s=150 if quick else 900, per_path_s=20,
                                     entry=f"GCodeBuilder.{entry.split('-')[0]}"))
+    for style in STYLES:
+        closer = BRACKETS.get(style, "")
+        alphabet = "".join(sorted(set(style + closer + "x \n")))
+        for entry in (("move", "comment") if quick else ("move", "comment", "comment-arg", "emergency_halt")):
+            for length in ((4,) if quick else (4, 5)):
+                if quick and len(closer) < 2 and style != "(":
+                    continue
+                out.append(Cell(f"{entry}|style={style}|len={length}|alphabet={alphabet!r}",
+                                _make(style, entry, length, "\n", alphabet),
+                                budget_s=200 if quick else 1200, per_path_s=30,
+                                entry=f"GCodeBuilder.{entry.split('-')[0]}"))
     pairs = [(";", "("), ("(", ";"), ("[", "("), ('"', "#")]
     if not quick:
         pairs += [("#", "/*"), ("/*", "'"), ("<", "["), ("'", ";")]
